@@ -82,3 +82,13 @@ CHECKS['C02'] = dict(
          'stage counter once per non-empty row, add_node/Node bookkeeping.',
     note='Not decided: equality of the whole tree with an independent spine-path model. Trusted: csv.reader dialect semantics, CPython list semantics.',
 )
+
+CHECKS['C06'] = dict(
+    category='other',
+    technique='guard truth table of the spine gate over canonical atoms (symbolic path enumeration of append_row) with per-path append counting; origin check of header propagation in the importer; derivation check of the spine-type query',
+    text='Decides, for every node and option set, that append_row exports a node iff its header identity is known and selected by type and id, '
+         'appends nothing for an unselected spine and exactly one cell otherwise, depends on nothing else, that every node of every exported '
+         'stage is offered to it in order, that header identity propagates parent -> child in the importer, and that the spine-type query is '
+         'the first line of a HEADER-only export with the same selection.',
+    note='Not decided: the projection equality on all split/join layouts; the excerpt preamble (from_measure) bypasses append_row (C08.R4, known finding F16).',
+)
